@@ -5,20 +5,19 @@
    (Session/InputDefs.v: run, step, process, handle, handle_client, the parse and apply
    functions), for every choice of the extended-clipboard handler [ext_cut] (C18 instantiates it).
 
-   SCOPE.  The input sources of this model are the RFB connections of the client list served by
-   rfbProcessClientMessage (plain sockets; the check also drives the WebSocket transport) and the
-   deferred-pointer flush of rfbUpdateClient.  The library has a THIRD source that is NOT modelled and
-   for which nothing is proved here: rfbProcessUDPInput (rfbserver.c:4246) hands every datagram
-   received on screen->udpSock to kbdAddEvent / ptrAddEvent without any test of protocol state,
-   viewOnly, pointerClient or scale (since 93b245e: nothing at all on a screen that requires a
-   password).  It is only active when the application sets screen->udpPort (default 0, no
-   command-line option sets it); every theorem below is about a server with udpPort = 0 (the UDP
-   source is exercised by C05's harness, not here).  Also outside the model: clients put on hold by newClientHook
-   (RFB_CLIENT_ON_HOLD), reverse connections in the sharing test, file-transfer messages, TLS. *)
+   SOURCES.  The application receives input callbacks from three places, all modelled:
+   (i) rfbProcessClientMessage of a connection of the client list (plain sockets; the check also drives
+   the WebSocket transport), (ii) the deferred-pointer flush of rfbUpdateClient, (iii) the UDP input
+   channel rfbProcessUDPInput (Session/InputWorld.v: active only when the application opens
+   screen->udpPort; no protocol state, view-only, pointer-owner or scale test applies to it; since
+   93b245e it is mute on a screen that requires a password).  [C06_gating_all_sources] covers all
+   three.  Session/InputWorld.v also has the connections put on hold by newClientHook and the
+   reverse connections (no sharing test, no authentication).  Outside the model: file-transfer
+   messages, TLS, handleEventsEagerly. *)
 From Coq Require Import ZArith List Bool.
 From LV Require Import Gen.Consts_C06 Wire.C2SInput Session.InputDefs Session.InputProofs
   Session.InputProofs2 Session.InputProofs3 Session.InputProofs4 Session.InputProofs5 Session.InputProofs6
-  Session.InputProofs7.
+  Session.InputProofs7 Session.InputWorld.
 Import ListNotations.
 Local Open Scope Z_scope.
 
@@ -282,8 +281,8 @@ Theorem C06_viewonly_kept_pass : forall ext_cut s id c0 c1, NoDup (map c_id (s_c
   find_client (s_clients (fst (process ext_cut s))) id = Some c1 -> c_viewonly c1 = true.
 Proof. exact process_viewonly_kept. Qed.
 
-(* the only other source of callbacks IN THIS MODEL (see SCOPE: rfbProcessUDPInput is not modelled),
-   the deferred-pointer flush of rfbUpdateClient, never serves a view-only connection *)
+(* the second source of callbacks, the deferred-pointer flush of rfbUpdateClient, never serves a
+   view-only connection (the third, the UDP channel, is at the end: C06_gating_all_sources) *)
 Theorem C06_gating_flush : forall cfg now c e,
   In e (snd (flush_ptr cfg now c)) ->
   c_viewonly c = false /\ 0 <= p_lastx (c_ptr c) /\
@@ -424,3 +423,119 @@ Theorem C06_ptr_coalescing_legacy_witness :
   exists ops, snd (c06_run (init_server (mkCfg 100 80 false 0 false false false 999 false 1)) ops)
               = [EvPtr 0 1 84 77; EvPtr 0 0 31 3; EvPtr 0 0 72 74].
 Proof. exists defer_witness_ops. exact defer_stale_witness. Qed.
+
+(* ---- all input sources (Session/InputWorld.v) -------------------------------------------------
+   Every operation of the world - the operations of InputDefs.v, connections on hold, reverse
+   connections, the UDP port and its datagrams - and every callback [e] it causes: [e] comes from
+   (i)   a message of a connection that was open, in RFB_NORMAL and not view-only when the pass started,
+   (ii)  the deferred-pointer flush of a listed connection that is not view-only, or
+   (iii) a well-formed datagram (KeyEvent of exactly 8 bytes / PointerEvent of exactly 6 bytes) on a
+         screen WITHOUT password whose UDP port the application has opened and whose UDP client is not on
+         hold; it is attributed to the UDP client.
+   No restriction on udpPort any more. *)
+Theorem C06_gating_all_sources : forall ext_cut,
+  (forall k p, snd (fst (ext_cut true k p)) = []) ->
+  forall u o e, NoDup (map c_id (s_clients (u_srv u))) ->
+  In e (snd (ustep ext_cut u o)) ->
+  (exists c, find_client (s_clients (u_srv u)) (ev_client e) = Some c /\ c_closed c = false /\
+             c_state c = SNormal /\ c_viewonly c = false) \/
+  (exists c0, find_client (s_clients (u_srv u)) (ev_client e) = Some c0 /\ c_viewonly c0 = false /\
+              exists mask x y, e = EvPtr (c_id c0) mask x y /\ 0 <= x) \/
+  (exists d, o = UUdp d /\ u_port u = true /\ u_udphold u = false /\ g_haspw (s_cfg (u_srv u)) = false /\
+             ev_client e = c06_udp_id /\
+             ((exists r dn k, d = c06_rfbKeyEvent :: r /\ Z.of_nat (length d) = c06_sz_KeyEvent /\ e = EvKey c06_udp_id dn k) \/
+              (exists r b x y, d = c06_rfbPointerEvent :: r /\ Z.of_nat (length d) = c06_sz_PointerEvent /\
+                               e = EvPtr c06_udp_id b x y))).
+Proof. exact ustep_gate. Qed.
+
+(* the UDP channel by itself: what a datagram can cause ... *)
+Theorem C06_udp_gate : forall cfg port hold d e,
+  In e (udp_events cfg port hold d) ->
+  port = true /\ hold = false /\ g_haspw cfg = false /\ ev_client e = c06_udp_id /\
+  ((exists r dn k, d = c06_rfbKeyEvent :: r /\ Z.of_nat (length d) = c06_sz_KeyEvent /\ e = EvKey c06_udp_id dn k) \/
+   (exists r b x y, d = c06_rfbPointerEvent :: r /\ Z.of_nat (length d) = c06_sz_PointerEvent /\
+                    e = EvPtr c06_udp_id b x y)).
+Proof. exact udp_events_gate. Qed.
+
+(* ... and what it does deliver: key symbol / button mask unaltered, the RAW position (no unscaling) *)
+Theorem C06_udp_delivers_key : forall cfg dn k,
+  g_haspw cfg = false -> byte_ok dn -> 0 <= k < 4294967296 ->
+  udp_events cfg true false (enc_key dn k) = [EvKey c06_udp_id dn k].
+Proof. exact udp_delivers_key. Qed.
+
+Theorem C06_udp_delivers_ptr : forall cfg b x y,
+  g_haspw cfg = false -> byte_ok b -> 0 <= x < 65536 -> 0 <= y < 65536 ->
+  udp_events cfg true false (enc_ptr b x y) = [EvPtr c06_udp_id b x y].
+Proof. exact udp_delivers_ptr. Qed.
+
+Theorem C06_udp_needs_open_port : forall cfg hold d, udp_events cfg false hold d = [].
+Proof. exact udp_needs_open_port. Qed.
+
+(* 93b245e: no unauthenticated input on a screen that requires a password *)
+Theorem C06_udp_refused_with_password : forall cfg port hold d,
+  g_haspw cfg = true -> udp_events cfg port hold d = [].
+Proof. exact udp_refused_with_password. Qed.
+
+Theorem C06_udp_refused_on_hold : forall cfg port d, udp_events cfg port true d = [].
+Proof. exact udp_refused_on_hold. Qed.
+
+Example C06_udp_nonvacuous :
+  let cfg pw := mkCfg 100 80 pw 0 false false false 0 false 0 in
+  let vo := set_state (new_client (cfg false) 3 true) SNormal in       (* a view-only TCP connection is no obstacle *)
+  let u pw := mkU (mkSrv (cfg pw) [vo] (Some 3) 0) true false [] [] in
+  snd (c06_ustep (u false) (UUdp (enc_ptr 1 65535 7))) = [EvPtr 255 1 65535 7] /\
+  snd (c06_ustep (u true) (UUdp (enc_ptr 1 65535 7))) = [] /\
+  snd (c06_ustep (u false) (UUdp (enc_key 1 97 ++ [0]))) = [] /\
+  snd (c06_ustep (init_world (cfg false)) (UUdp (enc_key 1 97))) = [].
+Proof. vm_compute. repeat split; reflexivity. Qed.
+
+(* ---- connections on hold (newClientHook -> RFB_CLIENT_ON_HOLD; sockets.c: rfbCheckFds skips them) ----
+   what the peer of a held connection sends does not reach the connection's input ... *)
+Theorem C06_on_hold_input_parked : forall ext_cut u id frags, is_held u id = true ->
+  u_srv (fst (ustep ext_cut u (UOp (OSend id frags)))) = u_srv u /\
+  snd (ustep ext_cut u (UOp (OSend id frags))) = [] /\
+  parked_for (u_park (fst (ustep ext_cut u (UOp (OSend id frags))))) id = parked_for (u_park u) id ++ map Frag frags.
+Proof. exact held_send_parked. Qed.
+
+(* ... so it stays in the first handshake state, from which no callback is possible ... *)
+Theorem C06_on_hold_no_callback : forall ext_cut,
+  (forall k p, snd (fst (ext_cut true k p)) = []) ->
+  forall s id c e, find_client (s_clients s) id = Some c -> c_state c = SVersion ->
+  ~ In e (snd (handle ext_cut s id)).
+Proof. exact held_no_callback. Qed.
+
+(* ... and rfbStartOnHoldClient lets everything sent meanwhile arrive, in order *)
+Theorem C06_on_hold_release_delivers : forall ext_cut u id c,
+  find_client (s_clients (u_srv u)) id = Some c ->
+  exists c', find_client (s_clients (u_srv (fst (ustep ext_cut u (URelease id))))) id = Some c' /\
+             c' = push_flight (parked_for (u_park u) id) c /\
+             is_held (fst (ustep ext_cut u (URelease id))) id = false /\
+             parked_for (u_park (fst (ustep ext_cut u (URelease id)))) id = [].
+Proof. exact release_delivers. Qed.
+
+Example C06_on_hold_nonvacuous :
+  let cfg := mkCfg 100 80 false 0 false false false 0 false 0 in
+  let ver := [82; 70; 66; 32; 48; 48; 51; 46; 48; 48; 56; 10] in
+  let ops1 := [UConnectHold 0 false; UOp (OSend 0 [ver]); UOp OProcess; UOp OProcess] in
+  map c_state (s_clients (u_srv (fst (urun ext_cut_off (init_world cfg) ops1)))) = [SVersion] /\
+  map c_state (s_clients (u_srv (fst (urun ext_cut_off (init_world cfg) (ops1 ++ [URelease 0; UOp OProcess]))))) = [SSecType].
+Proof. vm_compute. split; reflexivity. Qed.
+
+(* ---- reverse connections (rfbReverseConnection): rfbserver.c:889 / auth.c:311 ---- *)
+Theorem C06_reverse_no_sharing_test : forall cfg o c sh b,
+  c_rev c = true -> apply_init cfg o c sh b = applied_same (set_state c SNormal) o.
+Proof. exact reverse_no_sharing_test. Qed.
+
+Theorem C06_reverse_no_authentication : forall cfg c, c_rev c = true ->
+  needs_auth cfg c = false /\ primary_sec cfg c = c06_rfbSecTypeNone.
+Proof. exact reverse_no_authentication. Qed.
+
+Theorem C06_forward_sharing_test : forall cfg o c sh b,
+  c_rev c = false ->
+  apply_init cfg o c sh b =
+    (let c1 := set_state c SNormal in
+     if g_never cfg || (negb (g_always cfg) && (sh =? 0)) then
+       if g_dontdisc cfg then (if b then applied_close c1 o else applied_same c1 o)
+       else mkApplied c1 o [] true
+     else applied_same c1 o).
+Proof. exact forward_sharing_test. Qed.
